@@ -379,6 +379,46 @@ Section C13.
     g_resizing s = true \/ exists t' kt', g_pc s t' = PR_FinBcast kt'.
   Proof. intros Hl s Hp. destruct (reachable_inv2 len0 todo sched Hl) as [_ HW]. eapply xw_waiting; eassumption. Qed.
 
+
+  (* ---------------- critical sections are short ---------------- *)
+
+  (* how many more steps the holder of a bucket lock needs, at most, before it releases it *)
+  Definition cs_bound (s : xstate) (p : pc) : nat :=
+    match p with
+    | PW_ChkRes _ tab => 6 + nstr (tab_at s tab)
+    | PW_ChkTab _ tab => 5 + nstr (tab_at s tab)
+    | PW_Sum _ tab i _ => 3 + (nstr (tab_at s tab) - i)
+    | PW_D1 _ _ _ _ | PW_I1 _ _ _ _ => 3
+    | PW_D2 _ _ _ _ | PW_U1 _ _ _ _ _ | PW_I2 _ _ _ _ | PW_N1 _ _ _ => 2
+    | PW_Unlock _ _ _ | PR_CpUnlock _ _ _ _ _ | PG_Unlock _ _ _ => 1
+    | _ => 0
+    end.
+
+  Lemma nstr_set_chain (tb : xtable) b f : nstr (set_chain tb b f) = nstr tb.
+  Proof. reflexivity. Qed.
+
+  (* the holder of a bucket lock is never blocked, and every one of its steps brings the release nearer *)
+  Theorem cs_bounded s t p s' ls tab b : valid s p -> holds s p = Some (tab, b) -> step_pc s t p = Some (s', ls) ->
+    holds s' (g_pc s' t) = None \/ cs_bound s' (g_pc s' t) < cs_bound s p.
+  Proof.
+    intros Hv Hh Hs.
+    destruct p; try discriminate Hh; cbn [valid] in Hv;
+      cbn [XMachine.step_pc] in Hs; cbv zeta in Hs;
+      repeat match type of Hs with
+             | context [match ?x with _ => _ end] => destruct x eqn:?
+             end; try discriminate Hs; apply some_fst' in Hs; subst s'; rewrite ?goto_state'; cbn [fst];
+      cbn [set_pc g_pc]; (destruct (Nat.eq_dec t t) as [_|Hc]; [|exfalso; apply Hc; reflexivity]); cbn [norm].
+    all: try (left; reflexivity).
+    all: try (left; match goal with Hq : _ /\ _ /\ _ /\ quiet _ _ _ _ ?a |- _ =>
+                      destruct Hq as [_ [_ [_ [Q _]]]]; destruct a; cbn [norm]; first [reflexivity | apply Q] end).
+    all: try (right; cbn [cs_bound]; rewrite ?tab_at_set_pc; try rewrite (tab_at_set_tab nslots nstripes s _ _ _ Hv);
+              repeat match goal with |- context [Nat.eq_dec ?a ?a] => destruct (Nat.eq_dec a a) as [_|Hc]; [|exfalso; apply Hc; reflexivity] end;
+              cbn [nstr set_chain x_size]; try lia).
+    all: try match goal with H : Nat.ltb _ _ = true |- _ => apply Nat.ltb_lt in H; unfold nstr in *; lia end.
+    all: try (destruct p; cbn; auto).
+    all: try match goal with |- context [run_cont ?kt] => destruct kt; cbn; auto end.
+  Qed.
+
 End C13.
 
 (* ---------------- the statements of props/C13.v ---------------- *)
@@ -411,6 +451,23 @@ Section Final.
   Proof.
     intros [H1 [H2 H3]] len0 todo sched Hl.
     apply (reachable_inv2 eqd hash idx tag nslots seeds grow_needed shrink_policy probe nstripes minlen grow_only H1 H2 H3 len0 todo sched Hl).
+  Qed.
+
+  Lemma cs_bounded_proof :
+    xhyps idx nstripes minlen -> forall len0 todo sched t tab b, 0 < len0 ->
+    let s := run len0 todo sched in
+    holds hash idx nslots nstripes s (g_pc s t) = Some (tab, b) ->
+    exists s' ls, @step_pc K V eqd hash idx tag nslots seeds grow_needed shrink_policy probe nstripes minlen grow_only s t (g_pc s t) = Some (s', ls)
+      /\ (holds hash idx nslots nstripes s' (g_pc s' t) = None
+          \/ cs_bound nslots nstripes s' (g_pc s' t) < cs_bound nslots nstripes s (g_pc s t)).
+  Proof.
+    intros [H1 [H2 H3]] len0 todo sched t tab b Hl s Hh.
+    destruct (reachable_inv2 eqd hash idx tag nslots seeds grow_needed shrink_policy probe nstripes minlen grow_only H1 H2 H3 len0 todo sched Hl) as [HI _].
+    fold s in HI.
+    destruct (@step_pc K V eqd hash idx tag nslots seeds grow_needed shrink_policy probe nstripes minlen grow_only s t (g_pc s t)) as [[s' ls]|] eqn:E.
+    - exists s', ls. split; [reflexivity|].
+      eapply cs_bounded; try exact H3; [apply (xi_valid _ _ _ _ s HI t) | exact Hh | exact E].
+    - exfalso. eapply (holder_steps eqd hash idx tag nslots seeds grow_needed shrink_policy probe nstripes minlen grow_only); eassumption.
   Qed.
 
   Lemma locks_released_proof :
